@@ -1619,6 +1619,17 @@ int32 parseServerHello(ssl_t *ssl, int32 hsLen, unsigned char **cp,
                 ssl->sessionIdLen = (unsigned char) sessionIdLen;
                 Memcpy(ssl->sessionId, c, sessionIdLen);
                 ssl->flags &= ~SSL_FLAGS_RESUMED;
+# ifdef USE_STATELESS_SESSION_TICKETS
+                /* RFC 5077 3.4: a server that accepts our ticket echoes the
+                   session id we sent. It did not, so the ticket is rejected
+                   along with the session and the secret is gone: this must
+                   become a full handshake, not ticket limbo. */
+                if (ssl->sid && ssl->sid->sessionTicketState ==
+                    SESS_TICKET_STATE_SENT_TICKET)
+                {
+                    ssl->sid->sessionTicketState = SESS_TICKET_STATE_SENT_EMPTY;
+                }
+# endif
 # ifdef USE_MATRIXSSL_STATS
                 matrixsslUpdateStat(ssl, FAILED_RESUMPTIONS_STAT, 1);
 # endif
@@ -1658,6 +1669,14 @@ int32 parseServerHello(ssl_t *ssl, int32 hsLen, unsigned char **cp,
             ssl->sessionIdLen = 0;
             Memset(ssl->sessionId, 0x0, SSL_MAX_SESSION_ID_SIZE);
             ssl->flags &= ~SSL_FLAGS_RESUMED;
+# ifdef USE_STATELESS_SESSION_TICKETS
+            /* See above: no echoed session id, so no abbreviated handshake */
+            if (ssl->sid && ssl->sid->sessionTicketState ==
+                SESS_TICKET_STATE_SENT_TICKET)
+            {
+                ssl->sid->sessionTicketState = SESS_TICKET_STATE_SENT_EMPTY;
+            }
+# endif
 # ifdef USE_MATRIXSSL_STATS
             matrixsslUpdateStat(ssl, FAILED_RESUMPTIONS_STAT, 1);
 # endif
